@@ -487,4 +487,41 @@ theorem groupby_eq_python (hash : Nat → Nat) (g : α → Nat) (k stages : Nat)
       exact ⟨⟨x, List.mem_map.mpr ⟨_, hc, rfl⟩, rfl⟩, rfl⟩
     · exact List.mem_filter.mpr ⟨List.mem_map.mpr ⟨_, hc, rfl⟩, by simp⟩
 
+/-! ## distinct -/
+
+theorem nodup_eraseDups (l : List Nat) : l.eraseDups.Nodup := by
+  induction hn : l.length using Nat.strongRecOn generalizing l with
+  | _ n ih =>
+    cases l with
+    | nil => simp
+    | cons a as =>
+      rw [List.eraseDups_cons, List.nodup_cons]
+      refine ⟨?_, ih _ ?_ _ rfl⟩
+      · intro hmem
+        have := (List.mem_filter.mp (List.mem_eraseDups.mp hmem)).2
+        simp at this
+      · subst hn
+        exact Nat.lt_of_le_of_lt (List.length_filter_le _ _) (by simp)
+
+/-- **`distinct`**: the result has no repeats and exactly the elements of the bag — for every
+    partitioning (`Bag.distinct` uses the default `split_every = 8`) -/
+theorem bag_distinct_spec (b : Bag Nat) :
+    ∃ r, distinctB b = some r ∧ r.Nodup ∧ ∀ x, x ∈ r ↔ x ∈ den b := by
+  have hsome := reductionIx_isSome (fun _ => List.eraseDups) (fun _ _ (rs : List (List Nat)) => rs.flatten.eraseDups)
+    8 (by decide) b
+  obtain ⟨r, hr⟩ := Option.isSome_iff_exists.mp hsome
+  refine ⟨r, hr, ?_⟩
+  refine reductionIx_inv (fun q r => r.Nodup ∧ ∀ x, x ∈ r ↔ x ∈ q) _ _ ?_ ?_ 8 b r hr
+  · intro _ p
+    exact ⟨nodup_eraseDups p, fun x => List.mem_eraseDups⟩
+  · intro _ _ qs rs hall
+    refine ⟨nodup_eraseDups _, fun x => ?_⟩
+    rw [List.mem_eraseDups]
+    induction hall with
+    | nil => simp
+    | cons hab _ ih =>
+      simp only [List.flatten_cons, List.mem_append, hab.2 x, ih]
+
+example : distinctB [[3, 1, 3], [], [1, 2]] = some [3, 1, 2] := by decide
+
 end Dask.C48
